@@ -35,6 +35,9 @@ pub enum Mode {
     /// `d 250` decisions; cancel at these await indices (the first is global, the following ones
     /// count decisions of the `poll` issued after the previous cancel), then drain.
     CancelAt(Vec<usize>),
+    /// `d 250` decisions; cancel at this await index, `drop`, then a resumed reconnect on which
+    /// the broker retransmits what the client has not acknowledged (DUP) before any PUBREL.
+    CancelResume(usize),
 }
 
 pub(super) fn setup(rng: Rng, rx: usize, tx: usize) -> Drv {
@@ -63,6 +66,23 @@ pub fn run_steps(d: &mut Drv, steps: &[Step], mode: &Mode) -> usize {
                     Mode::All(n) => {
                         while d.suspended() {
                             d.x(&format!("d {n}"));
+                            k += 1;
+                            if d.starved {
+                                break;
+                            }
+                        }
+                    }
+                    Mode::CancelResume(at) => {
+                        while d.suspended() {
+                            if k == *at {
+                                d.x("cancel");
+                                d.x("drop");
+                                d.broker.always_retransmit = true;
+                                d.connect(&ConnSpec { sp: super::Sp::Fixed(true), rc: 0, props: vec![] });
+                                d.drain();
+                                return k;
+                            }
+                            d.x("d 250");
                             k += 1;
                             if d.starved {
                                 break;
@@ -126,6 +146,9 @@ pub(super) fn scenarios(rng: &mut Rng) -> Vec<(&'static str, Vec<Step>)> {
         ("pub1+pub2", vec![publish(1), publish(2), Step::Owed, poll(), Step::Owed, poll()]),
         ("sub+in1", vec![sub, Step::Owed, Step::Inbound(1), poll(), poll(), poll()]),
         ("pub2+in2", vec![publish(2), Step::Inbound(2), Step::Owed, poll(), poll(), poll(), Step::Owed, poll()]),
+        // An inbound publish read by the suspended poll while the write side is stalled.
+        ("in1-stalled", vec![poll(), Step::Inbound(1), poll(), poll()]),
+        ("in2-stalled", vec![poll(), Step::Inbound(2), poll(), poll(), Step::Owed, poll(), poll()]),
     ]
 }
 
@@ -142,6 +165,12 @@ pub fn sched(out: &mut Out, count: u64) {
         priority.push((s, Mode::All(1)));
         for i in 0..n {
             priority.push((s, Mode::CancelAt(vec![i])));
+        }
+        if list[s].0.ends_with("-stalled") {
+            // Every await index after the packet was read (the first poll starves after 1).
+            for i in 4..n {
+                priority.push((s, Mode::CancelResume(i)));
+            }
         }
         rest.push((s, Mode::All(2)));
         rest.push((s, Mode::All(3)));
@@ -170,6 +199,7 @@ pub fn sched(out: &mut Out, count: u64) {
         let tag = match mode {
             Mode::Go => "mode=go".to_string(),
             Mode::All(n) => format!("mode=all-d{n}"),
+            Mode::CancelResume(i) => format!("mode=cancel-resume at={i}"),
             Mode::CancelAt(p) => format!(
                 "mode=cancel at={}",
                 p.iter().map(|v| v.to_string()).collect::<Vec<_>>().join(",")
